@@ -937,8 +937,10 @@ func childMain(t *testing.T) {
 	}
 	defer out.Close()
 	// A scenario takes milliseconds of real time (its time is fake).  One that does not finish within
-	// a minute of real time is stuck where fake time cannot help (e.g. goroutines waiting for a lock
-	// held across a request that is never answered): reported as a crash of that scenario.
+	// 45 s of real time is stuck where fake time cannot help (e.g. goroutines waiting for a lock held
+	// across a request that is never answered): reported as a crash of that scenario.  (Once two
+	// scenarios have been reported that way the parent shortens the limit to 5 s.)
+	limit := time.Duration(EnvInt("C08_CHILD_WATCHDOG_S", 45)) * time.Second
 	var progress atomic.Int64
 	go func() {
 		last, since := int64(-1), time.Now()
@@ -946,8 +948,8 @@ func childMain(t *testing.T) {
 			time.Sleep(time.Second)
 			if p := progress.Load(); p != last {
 				last, since = p, time.Now()
-			} else if time.Since(since) > 60*time.Second {
-				fmt.Fprintln(os.Stderr, "fatal error: watchdog: the scenario did not finish within 60 s of real time")
+			} else if time.Since(since) > limit {
+				fmt.Fprintf(os.Stderr, "fatal error: watchdog: the scenario did not finish within %v of real time\n", limit)
 				os.Exit(3)
 			}
 		}
@@ -961,6 +963,10 @@ func childMain(t *testing.T) {
 		}
 	}
 }
+
+// maxStuck: once this many scenarios have been reported as stuck by the watchdog the run has its
+// failing inputs; the remaining scenarios are not run (each would cost seconds of real time).
+const maxStuck = 6
 
 func runAll(t *testing.T, ins []Input) []Obs {
 	dir := os.Getenv("VERIF_OUT")
@@ -976,12 +982,16 @@ func runAll(t *testing.T, ins []Input) []Obs {
 	os.Remove(outPath)
 	res := make([]Obs, len(ins))
 	done := 0
+	stuck := 0
 	for restarts := 0; done < len(ins); restarts++ {
 		if restarts > 300 {
 			t.Fatalf("more than 300 crashes of the implementation; giving up at case %d", done)
 		}
 		cmd := exec.Command(os.Args[0], "-test.run", "^TestC08$", "-test.count=1", "-test.timeout", "3600s")
 		cmd.Env = append(os.Environ(), "C08_CHILD_INPUTS="+inPath, "C08_CHILD_FROM="+strconv.Itoa(done), "C08_CHILD_OUT="+outPath)
+		if stuck >= 2 {
+			cmd.Env = append(cmd.Env, "C08_CHILD_WATCHDOG_S=5")
+		}
 		var stderr strings.Builder
 		cmd.Stderr = &stderr
 		cmd.Stdout = &stderr
@@ -1012,7 +1022,15 @@ func runAll(t *testing.T, ins []Input) []Obs {
 			}
 			// the case that was running crashed the process
 			res[done] = Obs{Panic: true, PanicAt: firstPanicLine(stderr.String())}
+			if strings.Contains(res[done].PanicAt, "watchdog:") {
+				stuck++
+			}
 			done++
+			if stuck >= maxStuck {
+				t.Logf("C08: %d scenarios stuck in real time; the %d scenarios after them are not run", stuck, len(ins)-done)
+				res = res[:done]
+				break
+			}
 		}
 	}
 	os.Remove(inPath)
@@ -1858,6 +1876,7 @@ func TestC08(t *testing.T) {
 		ins = append(ins, normalise(in))
 	}
 	obs := runAll(t, ins)
+	ins = ins[:len(obs)]
 	for i, in := range ins {
 		col.Count("mode:" + in.Mode)
 		if in.Mode == "submit" {
